@@ -150,3 +150,55 @@ Proof.
       rewrite <- (map_id (b_inters b)) at 1. apply map_ext. intros i. unfold shift_inter. destruct i as [sec ats prm mt]; cbn. f_equal.
       rewrite <- (map_id ats) at 1. apply map_ext. intros; lia.
 Qed.
+
+(* ---- corollaries of the layout: verbatim copies, once per residue, in residue order ---- *)
+Definition verbatim (a : atom) := (a_name a, a_type a, a_resname a, a_charge a, a_mass a).
+
+Lemma number_snd k l : map snd (number k l) = l.
+Proof. revert k; induction l as [|a r IH]; intros k; cbn; [reflexivity|]. rewrite IH. reflexivity. Qed.
+
+Lemma spec_atoms_verbatim idx r cg blocks :
+  map (fun ka => verbatim (snd ka)) (spec_atoms idx r cg blocks) = flat_map (fun b => map verbatim (b_atoms b)) blocks.
+Proof.
+  revert idx r cg; induction blocks as [|b rest IH]; intros idx r cg; cbn [spec_atoms flat_map]; [reflexivity|].
+  rewrite map_app, IH. f_equal. rewrite <- (map_map snd verbatim), number_snd, map_map. apply map_ext. intros a. reflexivity.
+Qed.
+
+Fixpoint spec_resids (r : Z) (blocks : list block) : list Z :=
+  match blocks with [] => [] | b :: rest => (repeat r (length (b_atoms b)) ++ spec_resids (r + 1) rest)%list end.
+
+Lemma spec_atoms_resids idx r cg blocks :
+  map (fun ka => a_resid (snd ka)) (spec_atoms idx r cg blocks) = spec_resids r blocks.
+Proof.
+  revert idx r cg; induction blocks as [|b rest IH]; intros idx r cg; cbn [spec_atoms spec_resids]; [reflexivity|].
+  rewrite map_app, IH. f_equal. rewrite <- (map_map snd a_resid), number_snd, map_map.
+  clear. induction (b_atoms b) as [|a l IHl]; cbn [map length repeat]; [reflexivity|]. rewrite IHl. f_equal. cbn. lia.
+Qed.
+
+Lemma spec_atoms_keys idx r cg blocks :
+  map fst (spec_atoms idx r cg blocks) =
+  map (fun i => idx + Z.of_nat i) (seq 0 (length (flat_map b_atoms blocks))).
+Proof.
+  revert idx r cg; induction blocks as [|b rest IH]; intros idx r cg; cbn [spec_atoms flat_map]; [reflexivity|].
+  rewrite map_app, IH, number_fst, map_length, app_length, seq_app, map_app. f_equal.
+  cbn [plus]. rewrite (seq_add (length (b_atoms b))), map_map. apply map_ext. intros i. unfold blen. lia.
+Qed.
+
+Lemma spec_inters_params idx blocks :
+  map (fun i => (i_sec i, i_params i, i_meta i)) (spec_inters idx blocks) =
+  flat_map (fun b => map (fun i => (i_sec i, i_params i, i_meta i)) (b_inters b)) blocks.
+Proof.
+  revert idx; induction blocks as [|b rest IH]; intros idx; cbn [spec_inters flat_map]; [reflexivity|].
+  rewrite map_app, IH, map_map. reflexivity.
+Qed.
+
+Open Scope string_scope.
+Example ex_blocks :
+  let a n := {| a_name := n; a_type := "P1"; a_resid := 1; a_resname := "RA"; a_cg := 1; a_charge := "0"; a_mass := "72" |} in
+  let b := {| b_atoms := [a "BB"; a "SC"]; b_inters := [{| i_sec := "bonds"; i_atoms := [0; 1]; i_params := ["1"; "0.3"]; i_meta := [] |}]; b_nrexcl := 1 |} in
+  match add_blocks 17 [b; b] with
+  | Some m => map fst (m_atoms m) = [0; 1; 2; 3] /\ map (fun ka => a_resid (snd ka)) (m_atoms m) = [17; 17; 18; 18] /\
+              map i_atoms (m_inters m) = [[0; 1]; [2; 3]]
+  | None => False
+  end.
+Proof. vm_compute. repeat split. Qed.
